@@ -138,6 +138,8 @@ def payload_for(kind: str, p: str) -> str:
         p = "".join(c for c in p if not c.isspace())
     if kind.startswith("xref."):
         return nolt(p)              # '<' separates label and target in both markups
+    if kind == "deprecated":
+        return p + "-"              # never an identifier, twin included: an identifier is resolved as a name instead
     if kind.startswith("doctest."):
         return p.replace("'", "").replace('"', "").replace("#", "")     # python tokens of the doctest colorizer
     return p
